@@ -403,6 +403,16 @@ impl<VM: VMBinding> CompressorSpace<VM> {
                     debug_assert_eq!(end_of_new_object, to);
                     self.update_references(worker, new_object);
                 });
+            #[cfg(feature = "mmtk_verif")]
+            crate::verif::gc::ev(
+                crate::verif::gc::Kind::PrResetCursor,
+                crate::verif::gc::space_tag(
+                    self.get_name(),
+                    (r.cursor() - to.align_up(crate::util::constants::BYTES_IN_PAGE))
+                        / crate::util::constants::BYTES_IN_PAGE,
+                ),
+                to.as_usize(),
+            );
             self.pr.reset_cursor(r, to);
         });
     }
